@@ -19,6 +19,7 @@ def escapeName : H11.Escape → String
   | .wsHandshake e => "wsHandshake:" ++ errName e
   | .wsHandle e => "wsHandle:" ++ errName e
   | .wsAnswer => "wsAnswer"
+  | .headerDecode => "headerDecode"
 
 def h1total : Handler := fun j => do
   let cfg ← cfgOfJson (← j.getObjVal? "cfg")
